@@ -261,7 +261,14 @@ func genSpec(r *rng, o genOpts) *Spec {
 	}
 	nUnits := 1 + r.below(3)
 	for i := 0; i < nUnits; i++ {
-		sp.Units = append(sp.Units, UnitSpec{Name: g.pname("un"), Desc: g.desc(), Symbol: g.word(1, 3), Kind: r.below(4)})
+		u := UnitSpec{Name: g.pname("un"), Desc: g.desc(), Symbol: g.word(1, 3), Kind: r.below(4)}
+		if r.chance(30) { // a unit is legal without a symbol (dimensionless) ...
+			u.Symbol = ""
+		}
+		if r.chance(8) { // ... and the API does not refuse an empty name
+			u.Name = ""
+		}
+		sp.Units = append(sp.Units, u)
 	}
 	nEnums := 2 + r.below(3)
 	for i := 0; i < nEnums; i++ {
@@ -294,16 +301,34 @@ func genSpec(r *rng, o genOpts) *Spec {
 		case 1, 2:
 			at.MinI, at.MaxI = 0, 10+r.below(1000)
 			at.DefI = r.below(at.MaxI + 1)
+			switch r.below(4) {
+			case 0:
+				at.DefI = at.MinI
+			case 1:
+				at.DefI = at.MaxI
+			}
 		case 3:
 			at.MinF, at.MaxF = -1000, 1000
 			at.DefF = g.float()
 			if at.DefF > 1000 || at.DefF < -1000 {
 				at.DefF = 0
 			}
+			switch r.below(5) {
+			case 0:
+				at.DefF = at.MinF
+			case 1:
+				at.DefF = at.MaxF
+			}
 		case 4:
 			nv := 1 + r.below(4)
 			for j := 0; j < nv; j++ {
 				at.EnumVals = append(at.EnumVals, fmt.Sprintf("ev%d%s", j, g.word(0, 3)))
+			}
+			// repeated values at the front, in the middle and at the end (the factory skips them)
+			for k := r.below(4); k > 0 && r.chance(75); k-- {
+				dup := at.EnumVals[r.below(len(at.EnumVals))]
+				pos := 1 + r.below(len(at.EnumVals))
+				at.EnumVals = append(at.EnumVals[:pos], append([]string{dup}, at.EnumVals[pos:]...)...)
 			}
 		}
 		sp.Attrs = append(sp.Attrs, at)
@@ -419,6 +444,48 @@ func genSpec(r *rng, o genOpts) *Spec {
 	return sp
 }
 
+// addDeepChain appends a message whose signals are multiplexers nested [levels] deep; the innermost
+// group holds an enum signal (enum with values) and a standard signal whose type, unit and enum are
+// referenced from nowhere else.
+func addDeepChain(sp *Spec, r *rng, levels int) {
+	var ifs *IfSpec
+	for _, b := range sp.Buses {
+		if len(b.Ifs) > 0 {
+			ifs = b.Ifs[r.below(len(b.Ifs))]
+			break
+		}
+	}
+	if ifs == nil {
+		return
+	}
+	g := &gen{r: r, uniq: 100000 + len(sp.Types)*100}
+	sp.Types = append(sp.Types, TypeSpec{Name: g.uname("deepty"), Kind: 2, Size: 3, Signed: r.chance(50)})
+	sp.Units = append(sp.Units, UnitSpec{Name: g.uname("deepun"), Symbol: []string{"", "m"}[r.below(2)], Kind: r.below(4)})
+	sp.Enums = append(sp.Enums, EnumSpec{Name: g.uname("deepen"), Desc: g.desc(),
+		Vals: []EnumValSpec{{Name: g.uname("dv"), Index: 0}, {Name: g.uname("dv"), Desc: "dlast", Index: 2 + r.below(2)}}})
+	ti, ui, ei := len(sp.Types)-1, len(sp.Units)-1, len(sp.Enums)-1
+	inner := []ChildSpec{
+		{Sig: &SigSpec{Kind: 1, Name: g.uname("s"), Enum: ei, Unit: -1, Start: 0, Size: sp.Enums[ei].size()}, Groups: []int{0}},
+		{Sig: &SigSpec{Kind: 0, Name: g.uname("s"), Type: ti, Unit: ui, Start: 4, Size: 3}, Groups: nil},
+	}
+	gs := 8
+	var cur *SigSpec
+	for l := 0; l < levels; l++ {
+		gc := 2 + r.below(2)
+		m := &SigSpec{Kind: 2, Name: g.uname("s"), Unit: -1, GroupCount: gc, GroupSize: gs, Size: gs + calcSize(gc-1)}
+		if cur == nil {
+			m.Children = inner
+		} else {
+			cur.Start = r.below(2)
+			m.Children = []ChildSpec{{Sig: cur, Groups: []int{gc - 1}}}
+		}
+		cur = m
+		gs = m.Size + 2
+	}
+	cur.Start = 64 - cur.Size - r.below(3)
+	ifs.Msgs = append(ifs.Msgs, &MsgSpec{Name: g.uname("msg"), ID: uint32(900 + r.below(50)), SizeByte: 8, Sigs: []*SigSpec{cur}})
+}
+
 func (g *gen) assigns(sp *Spec, pct int) []AssignSpec {
 	var res []AssignSpec
 	used := map[int]bool{}
@@ -435,8 +502,20 @@ func (g *gen) assigns(sp *Spec, pct int) []AssignSpec {
 			as.S = g.word(0, 5)
 		case 1, 2:
 			as.I = at.MinI + g.r.below(at.MaxI-at.MinI+1)
+			switch g.r.below(4) {
+			case 0:
+				as.I = at.MinI
+			case 1:
+				as.I = at.MaxI
+			}
 		case 3:
 			as.F = float64(g.r.below(2000)-1000) / 4
+			switch g.r.below(5) {
+			case 0:
+				as.F = at.MinF
+			case 1:
+				as.F = at.MaxF
+			}
 		case 4:
 			as.S = at.EnumVals[g.r.below(len(at.EnumVals))]
 		}
@@ -517,7 +596,7 @@ func (g *gen) signal(sp *Spec, room, depth int) *SigSpec {
 	case kind < 5: // standard
 		var cands []int
 		for i, t := range sp.Types {
-			if t.Size <= room {
+			if t.Size <= room && (depth >= 3 || i != len(sp.Types)-1) {
 				cands = append(cands, i)
 			}
 		}
@@ -525,14 +604,23 @@ func (g *gen) signal(sp *Spec, room, depth int) *SigSpec {
 			return nil
 		}
 		s.Kind, s.Type = 0, cands[r.below(len(cands))]
+		if depth >= 3 && sp.Types[len(sp.Types)-1].Size <= room && r.chance(60) {
+			s.Type = len(sp.Types) - 1 // a type referenced only from deep nesting
+		}
 		s.Size = sp.Types[s.Type].Size
 		if r.chance(50) {
 			s.Unit = r.below(len(sp.Units))
+			if len(sp.Units) > 1 && s.Unit == len(sp.Units)-1 && depth < 3 {
+				s.Unit = 0
+			}
+			if depth >= 3 && r.chance(60) {
+				s.Unit = len(sp.Units) - 1 // a unit referenced only from deep nesting
+			}
 		}
 	case kind < 8 || depth > g.o.MaxDepth || room < 3: // enum
 		var cands []int
 		for i := range sp.Enums {
-			if sp.Enums[i].size() <= room {
+			if sp.Enums[i].size() <= room && (depth >= 3 || i != len(sp.Enums)-1) {
 				cands = append(cands, i)
 			}
 		}
@@ -540,6 +628,9 @@ func (g *gen) signal(sp *Spec, room, depth int) *SigSpec {
 			return nil
 		}
 		s.Kind, s.Enum = 1, cands[r.below(len(cands))]
+		if depth >= 3 && sp.Enums[len(sp.Enums)-1].size() <= room && r.chance(60) {
+			s.Enum = len(sp.Enums) - 1 // an enum referenced only from deep nesting
+		}
 		s.Size = sp.Enums[s.Enum].size()
 	default: // multiplexer
 		gc := []int{1, 2, 2, 3, 4, 5, 8}[r.below(7)]
